@@ -1,6 +1,7 @@
 import BitbybitModel.Macro.Bitfield
 import BitbybitModel.Macro.Bitenum
 import BitbybitModel.Spec.Register
+import Std.Data.HashMap
 /-!
 # Line-protocol driver: runs the model (`M`) and the reference semantics (`S`) on the operations the
 runner executed on the real code (`R`), and reports every disagreement.
@@ -94,6 +95,7 @@ def TypeEntry.name : TypeEntry → String
 
 structure State where
   types : Array TypeEntry := #[]
+  index : Std.HashMap String Nat := {}
   -- pending declaration being read
   curEnum : Option EnumSyn := none
   curDecl : Option DeclSyn := none
@@ -104,7 +106,12 @@ structure State where
   deriving Inhabited
 
 def State.find (st : State) (name : String) : Option (Nat × TypeEntry) :=
-  (st.types.toList.zipIdx.find? (fun p => p.1.name == name)).map (fun p => (p.2, p.1))
+  match st.index[name]? with
+  | some i => (st.types[i]?).map (fun e => (i, e))
+  | none => none
+
+def State.push (st : State) (e : TypeEntry) : State :=
+  { st with index := st.index.insert e.name st.types.size, types := st.types.push e }
 
 def State.resolve (st : State) (segs : List String) : Nat :=
   match segs.getLast? with
